@@ -18,7 +18,7 @@ _T_ENC = ['stone.backends.python_rsrc.stone_serializers:json_compat_obj_encode',
           'stone.backends.python_rsrc.stone_serializers:StoneSerializerBase.encode_sub']
 _T_DEC = ['stone.backends.python_rsrc.stone_serializers:json_compat_obj_decode']
 
-SKIP_TYPES = ()
+SKIP_TYPES = ('WinPath',) if hx.TIER == 'quick' else ()    # no string within the quick length bound matches its pattern
 
 
 def type_items():
@@ -33,6 +33,8 @@ def type_items():
                 pass   # a leaf of a subtype tree is also usable as a plain struct type
             out.append('%s.%s' % (nsname, dt.name))
         for al in ns.aliases:
+            if al.name in SKIP_TYPES:
+                continue
             out.append('%s.%s' % (nsname, al.name))
     return out
 
